@@ -138,6 +138,11 @@ class C07(Prop):
             ks = [gen_key(rng) for _ in range(rng.randint(1, 8))]
             cases.append({'pairs': [[F.to_json(k), i] for i, k in enumerate(ks)], 'n': rng.randint(1, 5),
                           'slices': rng.randint(1, 3)})
+        # long strings (alone and inside tuples), as keys next to short ones: the hash must not change its method with length
+        longs = ['x' * 257, 'ab' * 200, 'é' * 300, 'q' * 1000 + 'r', ('k', 'y' * 400), (1, ('z' * 260,))]
+        for i in range(6):
+            ks = longs[i:] + longs[:i] + ['a', 1]
+            cases.append({'pairs': [[F.to_json(k), j] for j, k in enumerate(ks)], 'n': 2 + i % 4, 'slices': 1 + i % 3})
         # float keys: compared across interpreters only
         fcases = [{'pairs': [[{'f': repr(x)}, i] for i, x in enumerate([0.5, -1.25, 1e10, 3.0, 2.5e-3, float(2 ** 70)])],
                    'n': 4, 'slices': 2}]
